@@ -183,6 +183,9 @@ func projectErr(err error) term {
 	if wt, ok := err.(WT); ok {
 		return term{Op: "WT", Ch: []term{projectErr(wt.Err)}}
 	}
+	if m, ok := err.(*multiErr); ok && len(m.es) == 2 && m.es[0] == nil {
+		return term{Op: "JN", Ch: []term{projectErr(m.es[1])}}
+	}
 	if j, ok := err.(interface{ Unwrap() []error }); ok {
 		if es := j.Unwrap(); len(es) == 2 {
 			return term{Op: "J", Ch: []term{projectErr(es[0]), projectErr(es[1])}}
@@ -212,6 +215,8 @@ func buildErrX(t term) error {
 	switch t.Op {
 	case "EFB":
 		return errFB
+	case "CtxCanceled":
+		return context.Canceled // (an attempt may fail with this error on its own account, nobody having cancelled anything)
 	case "TimeoutExceeded":
 		return timeout.ErrExceeded
 	case "ErrOpen":
@@ -460,6 +465,8 @@ func condPred(c cond) func(string, error) bool {
 			target = circuitbreaker.ErrOpen
 		case "TimeoutExceeded":
 			target = timeout.ErrExceeded
+		case "CtxCanceled":
+			target = context.Canceled
 		}
 		return func(_ string, e error) bool { return errors.Is(e, target) }
 	case "result":
@@ -498,6 +505,8 @@ func condErr(v string) error {
 		return ratelimiter.ErrExceeded
 	case "TimeoutExceeded":
 		return timeout.ErrExceeded
+	case "CtxCanceled":
+		return context.Canceled
 	}
 	panic("unknown error name " + v)
 }
@@ -515,11 +524,17 @@ func applyStrConds(cs []cond, alt bool, onErrsV func(...error), onTypes func(...
 			errs = append(errs, condErr(c.V))
 		}
 	}
-	if len(errs) > 0 {
-		onErrsV(errs...)
-		for i := range errs {
-			errs[i] = errors.New("overwritten after the registration")
+	regErrs := func() {
+		if len(errs) > 0 {
+			onErrsV(errs...)
+			for i := range errs {
+				errs[i] = errors.New("overwritten after the registration")
+			}
 		}
+	}
+	// (alt: the errors are registered LAST, after types, results and predicates - no registration replaces an earlier one)
+	if !alt {
+		regErrs()
 	}
 	// ... and all error-type registrations through one HandleErrorTypes(A{}, &B{}) call
 	var types []any
@@ -557,6 +572,9 @@ func applyStrConds(cs []cond, alt bool, onErrsV func(...error), onTypes func(...
 		default:
 			panic("unsupported cond type " + c.T)
 		}
+	}
+	if alt {
+		regErrs()
 	}
 }
 
